@@ -28,7 +28,7 @@ def run(tier: str) -> int:
         X.overlay_exhaustive(rep, wd, "overlay_old_containers_frozen", "Spec", 4 if quick else 5, 3)
         # code: protocol-level histories
         jobs = PC.random_proto_jobs(40 if quick else 400, 18 if quick else 30, seed) + \
-            PC.merge_jobs(10 if quick else 80, seed, start=50000)
+            PC.merge_jobs(10 if quick else 80, seed, start=50000) + PC.close_variant_jobs(seed, start=60000)
         good, verd = PC.run_validate(rep, wd, jobs, "protocol_histories", "harness.protoworker", only=CLAUSES)
         for j, t in good[:2]:
             rep.sample({"cls": j["cls"], "actions": [[e["op"], e["a"].get("mode", ""), e["ok"]] for e in t[1:]]})
